@@ -4,13 +4,13 @@
 EXTENDS V2Contract, Json
 Trace == ndJsonDeserialize("trace_v2.ndjson")
 VARIABLE l
-tvars == <<corpus, last, plants, memo, scores, l>>
+tvars == <<corpus, last, plants, memo, scores, retained, l>>
 TInit == CInit /\ l = 1
 Ev(n) == l <= Len(Trace) /\ Trace[l].ev = n /\ l' = l + 1
 E == Trace[l]
 
 TReset  == /\ Ev("reset")
-           /\ last' = <<>> /\ plants' = <<>> /\ scores' = <<>>
+           /\ last' = <<>> /\ plants' = <<>> /\ scores' = <<>> /\ retained' = <<>>
            /\ corpus' = (IF E.keepcorpus THEN corpus ELSE <<>>)
            /\ memo' = (IF E.keepmemo THEN memo ELSE <<>>)
 TNew    == Ev("new")   /\ New(E.c)
@@ -21,7 +21,8 @@ TMatch  == Ev("match") /\ MatchReturn(E.c, E.in, E)
 TFail   == Ev("fail")  /\ MatchFail(E)
 TScore  == Ev("score") /\ ScoreRet(E.in, E)
 TPair   == Ev("pair")  /\ Pair(E)
-TNext == TReset \/ TNew \/ TAdd \/ TNorm \/ TPlant \/ TMatch \/ TFail \/ TScore \/ TPair
+TRetain == Ev("retain") /\ RetainRet(E.in, E)
+TNext == TReset \/ TNew \/ TAdd \/ TNorm \/ TPlant \/ TMatch \/ TFail \/ TScore \/ TPair \/ TRetain
 TSpec == TInit /\ [][TNext]_tvars
 TraceAccepted == TLCGet("stats").diameter - 1 = Len(Trace)
 =============================================================================
